@@ -150,6 +150,27 @@ def run_tracker(prop, ev):
     return _handle(prop, "mtsym-track", results, ev, lambda r: "%s/%s#none" % (prop, r["type"]))
 
 
+def run_sequences(prop, ev, N=5):
+    """parser::sequence_parser::split_into_sequences from source (mtsym/seqcheck.py)"""
+    results = e2rules._run("seqcheck", "run", {"N": N}) + e2rules._run("seqcheck", "run_repetitive", {"N": N})
+    ev.assumptions.append("split_into_sequences is executed from source from the statement after `all_fields.sort_by_key(..)`; contract "
+                          "for the seven lines before it: flattening the FieldMap and sorting by stamp yields the occurrences in stamp order "
+                          "(stamps distinct, as parse_block4_fields produces them); tags are symbolic strings over the tag literals of the "
+                          "sequence parser and its configurations plus two fresh tags, values and stamps distinct constants; "
+                          "`trim_end_matches(char::is_alphabetic)` is evaluated exactly on that vocabulary; a result map built with "
+                          "entry(k).or_insert_with(Vec::new).push(x) is the list of guarded (k, x) records; five configurations: the ones "
+                          "get_sequence_config returns (marker 21 without / with sequence C, marker 20) and markers 23 and 61 (MT935 / MT940 "
+                          "special cases in the splitter)")
+    ev.assumptions.append("parse_repetitive_sequence is executed from source under the same flatten-and-sort contract (markers 21, 20, 23; tags "
+                          "over a 12-word vocabulary): every occurrence from the first marker on is in exactly one item, earlier ones in none, one "
+                          "item per marker occurrence; map clone / clear / is_empty on the record list")
+    ev.functions.update(["parser::sequence_parser::{split_into_sequences,parse_repetitive_sequence,is_sequence_b_marker}"])
+    ev.bounds.append("split_into_sequences: %d field occurrences, 5 configurations, tag vocabulary of about 30 words" % N)
+    ev.outside.append("FieldMaps with equal stamps (HashMap iteration order would then matter); more than %d occurrences; "
+                      "which sequence an occurrence is assigned to (only exactly-once is judged)" % N)
+    return _handle(prop, "mtsym-seq", results, ev, lambda r: "%s/%s#none" % (prop, r["type"]))
+
+
 def replay_file(path):
     """replay of a witness written by one of the source-level field / header checkers: run it on the real build again"""
     from common import replay_batch
@@ -158,6 +179,10 @@ def replay_file(path):
     w = payload.get("witness") or {}
     if eng == "mtsym-track" and "positions" in w:
         out = {"claimed": w.get("why"), "real_dev": replay_batch([{"op": "tracker", "positions": w["positions"], "marks": w["marked_in_order"]}], "dev")[0]}
+        print(json.dumps(out, indent=1)[:4000])
+        return EXIT_VIOLATION
+    if eng == "mtsym-seq" and "replay" in w:
+        out = {"claimed": w.get("why"), "real_dev": replay_batch([w["replay"]], "dev")[0], "real_release": replay_batch([w["replay"]], "release")[0]}
         print(json.dumps(out, indent=1)[:4000])
         return EXIT_VIOLATION
     if eng == "mtsym-tok4" and "text" in w:
